@@ -117,8 +117,10 @@ def gen_struct_case(g, cid, opts=None):
     # ---- fields
     nf = 0 if s_shape == "unit" else r.randint(1, opts.get("max_fields", 7))
     sf = []
+    leaves = opts.get("leaves") or LEAVES
+    sc.leaves = leaves
     for i in range(nf):
-        sf.append(SFld(f"f{i}" if s_shape == "named" else i, r.choice(LEAVES)))
+        sf.append(SFld(f"f{i}" if s_shape == "named" else i, r.choice(leaves)))
     tf = []
     if cell.startswith("ghosts->") or t_kind == "unit":
         for f in sf:
@@ -200,7 +202,7 @@ def gen_struct_case(g, cid, opts=None):
         n_only = r.choice([0, 0, 1, 2]) if sf else r.randint(1, 3)
         for j in range(n_only):
             k = g.mark()
-            t = TFld(f"g{k}" if t_named else len(tf), r.choice(LEAVES))
+            t = TFld(f"g{k}" if t_named else len(tf), r.choice(leaves))
             if sc.existing_only and g.chance(0.6) and sf:
                 t.untouched = True
             else:
@@ -410,8 +412,9 @@ def s_ctor(sc, vals):
     return "S(" + " ".join(f"{v}," for v in vals) + ")"
 
 
-def render_module(sc, g, fallible, draws):
-    """module source for one fallibility flavour. Returns (code, derive_input_text, conversions)."""
+def render_module(sc, g, fallible, draws, nostd=False):
+    """module source for one fallibility flavour. Returns (code, derive_input_text, conversions).
+    nostd=True renders a driver that needs nothing but core (values are compared in place and reported through a callback)."""
     sc.t_path = "T" if sc.t_kind != "bare_tuple" else "(" + ", ".join(t.ty for t in sc.tf) + ("," if len(sc.tf) == 1 else "") + ")"
     if sc.existing_only:
         sc.kinds = ["from_owned", "from_ref", "owned_into_existing", "ref_into_existing"]
@@ -433,7 +436,7 @@ def render_module(sc, g, fallible, draws):
             it.attrs.append(Instr("ghosts", "ghosts", container=None, entries=[dict(path=None, ident=t.name, action=const_of(t.ty, t.ghost["owned"])) for t in only]))
     for f in sc.sf:
         it.fields.append(Field(f.name if sc.s_shape == "named" else None, f.ty, field_attrs(sc, f, fallible)))
-    derive_src = it.render(derive="#[derive(Clone, Debug, PartialEq, o2o::o2o)]")
+    derive_src = it.render(derive="#[derive(Clone, Debug, PartialEq, o2o::o2o)]" if not nostd else "#[derive(Clone, Debug, PartialEq, o2o_macros::o2o)]")
     L = ["use super::*;", "use o2o::traits::*;", t_type_def(sc), derive_src, ""]
     convs = []
     wrap = (lambda e: f"Ok::<_, super::Er>({e})") if fallible else (lambda e: e)
@@ -465,6 +468,28 @@ def render_module(sc, g, fallible, draws):
         convs.append(kind)
     # driver
     tag = f"c{sc.cid}{'f' if fallible else 'i'}"
+    if nostd:
+        D = ["pub fn run(report: &mut dyn FnMut(&'static str, &'static str, bool)) {", f"    let mut r = crate::Rng::new({sc.cid + 1000});", f"    for d in 0..{draws}usize {{"]
+        D.append("        let t: T = " + t_ctor(sc, [rng_call(t.ty) for t in sc.tf]) + ";")
+        D.append("        let pre: T = " + t_ctor(sc, [rng_call(t.ty) for t in sc.tf]) + ";")
+        D.append("        let s: S = " + s_ctor(sc, [rng_call(f.ty) for f in sc.sf]) + ";")
+        for kind in convs:
+            name = ("try_" if fallible else "") + kind
+            if kind == "from_owned":
+                call, want = ("S::try_from(t.clone())" if fallible else "S::from(t.clone())"), "ref_from_owned(&t)"
+            elif kind == "from_ref":
+                call, want = ("S::try_from(&t)" if fallible else "S::from(&t)"), "ref_from_ref(&t)"
+            elif kind == "owned_into":
+                call, want = ("{ let x: Result<T, super::Er> = s.clone().try_into(); x }" if fallible else "{ let x: T = s.clone().into(); x }"), "ref_owned_into(&s, &pre)"
+            elif kind == "ref_into":
+                call, want = ("{ let x: Result<T, super::Er> = (&s).try_into(); x }" if fallible else "{ let x: T = (&s).into(); x }"), "ref_ref_into(&s, &pre)"
+            elif kind == "owned_into_existing":
+                call, want = ("{ let mut o = pre.clone(); let x = s.clone().try_into_existing(&mut o); x.map(|_| o) }" if fallible else "{ let mut o = pre.clone(); s.clone().into_existing(&mut o); o }"), "ref_owned_into_existing(&s, &pre)"
+            else:
+                call, want = ("{ let mut o = pre.clone(); let x = (&s).try_into_existing(&mut o); x.map(|_| o) }" if fallible else "{ let mut o = pre.clone(); (&s).into_existing(&mut o); o }"), "ref_ref_into_existing(&s, &pre)"
+            D.append(f'        report("{tag}", "{name}", {call} == {want});')
+        D += ["    }", "}"]
+        return "\n".join(L + D) + "\n", derive_src, convs
     D = ["pub fn run(log: &mut crate::rt::Log) {", f"    let mut r = crate::rt::Rng::new({sc.cid + 1000});", f"    for d in 0..{draws}usize {{"]
     chk_bias = ""
     D.append("        let t: T = " + t_ctor(sc, [rng_call(t.ty) for t in sc.tf]) + ";")
